@@ -107,9 +107,12 @@ LevelSumTerm(A, a, b, sign) ==
 (* ------------------------------------------------------------ exact lattice *)
 \* numbers m * 10^e with a rational mantissa m free of factors of ten
 RECURSIVE Strip10(_)
+\* canonical form: denominator coprime to ten, numerator not divisible by ten
 Strip10(v) == LET n == v.m[1] d == v.m[2] IN
-              IF n # 0 /\ n % 10 = 0 THEN Strip10([m |-> <<n \div 10, d>>, e |-> v.e + 1])
-              ELSE IF d % 10 = 0 THEN Strip10([m |-> <<n, d \div 10>>, e |-> v.e - 1])
+              IF n = 0 THEN [m |-> <<0, 1>>, e |-> 0]
+              ELSE IF d % 2 = 0 THEN Strip10([m |-> <<n * 5, d \div 2>>, e |-> v.e - 1])
+              ELSE IF d % 5 = 0 THEN Strip10([m |-> <<n * 2, d \div 5>>, e |-> v.e - 1])
+              ELSE IF n % 10 = 0 THEN Strip10([m |-> <<n \div 10, d>>, e |-> v.e + 1])
               ELSE [m |-> QNorm(<<n, d>>), e |-> v.e]
 LV(n, d, e) == Strip10([m |-> QNorm(<<n, d>>), e |-> e])
 LMul(a, b) == Strip10([m |-> QMul(a.m, b.m), e |-> a.e + b.e])
